@@ -274,6 +274,15 @@ class TimeCachingAdapter(Adapter, NoBranchAdapter, ABC):
             else:
                 self._total_mem -= d[1].nbytes
 
+    def _unpack(self, where):
+        # cached data is in the units of the adapter's input, which can differ from its output units
+        if isinstance(where, str):
+            self.logger.profile("reading data from file %s", where)
+            data = np.load(where, allow_pickle=True)
+            return dtools.UNITS.Quantity(data, self._input_info.units)
+
+        return where
+
     def _finalize(self):
         """Remove data that was stored to disk and clear the cache."""
         for _t, d in self.data:
